@@ -1336,3 +1336,148 @@ func runC07_16(c *core.Ctx) {
 		c.Undecided("gnet", "ln.open() sites", 0, "no caller of listener.open found")
 	}
 }
+
+func init() {
+	register(&core.Rule{ID: "C07.18", Prop: "C07", MinSites: 2,
+		Desc: "Enroll hands over, it does not copy: Client.EnrollContext duplicates the descriptor of the net.Conn it is given and must then (a) close that net.Conn on every path – its Close is deferred before the first return – since the Dial functions create it for this purpose and nobody else will, and (b) once the gnet conn that owns the duplicate exists, close that conn before every failure return (first result nil); before it exists a deferred clean-up closes the duplicate",
+		Run:  runC07_18})
+}
+
+func runC07_18(c *core.Ctx) {
+	f := getFn(c, "", "Client.EnrollContext")
+	v := vocabOf(c)
+	if f == nil || v == nil {
+		return
+	}
+	given := f.param(0)
+	if given == nil {
+		c.Undecided(f.Name, "taken-over net.Conn", f.Decl.Pos(), "first parameter not found")
+		return
+	}
+	isCloseOf := func(call *ast.CallExpr, who types.Object) bool {
+		sel, ok := ast.Unparen(call.Fun).(*ast.SelectorExpr)
+		return ok && sel.Sel.Name == "Close" && flow.ObjOf(f.Info, sel.X) == who && len(call.Args) == 0
+	}
+	closesIn := func(n ast.Node, who types.Object) bool {
+		found := false
+		ast.Inspect(n, func(x ast.Node) bool {
+			if call, ok := x.(*ast.CallExpr); ok && isCloseOf(call, who) {
+				found = true
+			}
+			return true
+		})
+		return found
+	}
+	// (a) the given net.Conn
+	const fGiven = 1
+	p := &flow.Problem{Must: true}
+	p.Node = func(b *flow.Block, i int, n ast.Node, in uint64) uint64 {
+		switch x := n.(type) {
+		case *ast.DeferStmt:
+			if isCloseOf(x.Call, given) {
+				in |= fGiven
+			} else if lit, ok := ast.Unparen(x.Call.Fun).(*ast.FuncLit); ok && closesIn(lit.Body, given) {
+				in |= fGiven
+			}
+		default:
+			for _, call := range flow.Calls(n) {
+				if isCloseOf(call, given) {
+					in |= fGiven
+				}
+			}
+		}
+		return in
+	}
+	sol := f.Graph().Solve(p)
+	var bad token.Pos
+	exits := 0
+	sol.Walk(func(b *flow.Block, i int, n ast.Node, before uint64) {
+		if r, ok := n.(*ast.ReturnStmt); ok {
+			exits++
+			if before&fGiven == 0 && bad == token.NoPos {
+				bad = r.Pos()
+			}
+		}
+	})
+	at := f.Decl.Pos()
+	if bad != token.NoPos {
+		at = bad
+	}
+	c.Check(bad == token.NoPos && exits > 0, f.Name, "the net.Conn taken over is closed on every path", at, itoa(exits)+" returns, each after the (deferred) Close of "+given.Name(),
+		"EnrollContext can return without having closed (or deferred the close of) the net.Conn it was given: its descriptor was duplicated for the gnet conn, so the original – created by Dial for exactly this hand-over – stays open for good")
+	// (b) the gnet conn that owns the duplicate
+	var owner types.Object
+	ast.Inspect(f.Decl.Body, func(n ast.Node) bool {
+		if as, ok := n.(*ast.AssignStmt); ok && len(as.Lhs) == 1 && len(as.Rhs) == 1 {
+			if call, ok := ast.Unparen(as.Rhs[0]).(*ast.CallExpr); ok {
+				if cf := flow.CalleeFunc(f.Info, call); cf != nil && (cf.Name() == "newStreamConn" || cf.Name() == "newUDPConn") {
+					owner = flow.ObjOf(f.Info, as.Lhs[0])
+				}
+			}
+		}
+		return true
+	})
+	if owner == nil {
+		c.Undecided(f.Name, "conn owning the duplicate", f.Decl.Pos(), "no assignment from newStreamConn/newUDPConn found")
+		return
+	}
+	const (
+		sNone = iota
+		sOwned
+		sClosed
+	)
+	au := &flow.Auto{Start: sNone}
+	au.Node = func(b *flow.Block, i int, n ast.Node, st int) int {
+		if as, ok := n.(*ast.AssignStmt); ok && len(as.Lhs) == 1 && flow.ObjOf(f.Info, as.Lhs[0]) == owner {
+			if call, ok := ast.Unparen(as.Rhs[0]).(*ast.CallExpr); ok {
+				if cf := flow.CalleeFunc(f.Info, call); cf != nil && (cf.Name() == "newStreamConn" || cf.Name() == "newUDPConn") {
+					return sOwned
+				}
+			}
+		}
+		for _, call := range flow.Calls(n) {
+			if isCloseOf(call, owner) && st == sOwned {
+				return sClosed
+			}
+		}
+		return st
+	}
+	sol2 := f.Graph().Run(au)
+	var bad2 token.Pos
+	sol2.AtExit(func(b *flow.Block, _ uint64) {
+		r := b.Return
+		if r == nil || len(r.Results) != 2 || !flow.IsNil(f.Info, r.Results[0]) {
+			return // success: the conn is handed to the caller
+		}
+		if sol2.Out(b)&(1<<sOwned) != 0 && bad2 == token.NoPos {
+			bad2 = r.Pos()
+		}
+	})
+	// before the owner exists: a deferred clean-up that closes the duplicate while the owner is nil
+	deferred := false
+	for _, d := range f.Graph().Defers {
+		if lit, ok := ast.Unparen(d.Call.Fun).(*ast.FuncLit); ok {
+			ast.Inspect(lit.Body, func(n ast.Node) bool {
+				if is, ok := n.(*ast.IfStmt); ok {
+					if x, y, op, ok := flow.Cmp(is.Cond); ok && op == token.EQL && flow.ObjOf(f.Info, x) == owner && flow.IsNil(f.Info, y) {
+						for _, call := range callsIn(is.Body, false) {
+							if flow.IsPkgFunc(f.Info, call, unixPkg, "Close") {
+								deferred = true
+							}
+						}
+					}
+				}
+				return true
+			})
+		}
+	}
+	at2 := f.Decl.Pos()
+	why := ""
+	switch {
+	case bad2 != token.NoPos:
+		at2, why = bad2, "a failure return is reachable after the gnet conn took over the duplicated descriptor without closing that conn: the duplicate (and the conn's pooled buffers) leak"
+	case !deferred:
+		why = "no deferred clean-up closes the duplicated descriptor while the gnet conn does not exist yet: every failure before that point leaks the duplicate"
+	}
+	c.Check(why == "", f.Name, "the duplicate is closed on every failure", at2, "deferred unix.Close while the owner is nil; owner.Close() before failure returns afterwards", why)
+}
